@@ -381,6 +381,12 @@ func (c *child) runBig(bc bigCase, payload []byte) {
 	} else {
 		fmt.Fprintln(c.out, "HB") // every big payload is progress of its own (stall = 20 s of CPU inside ONE of them)
 	}
+	if bc.n == -1 {
+		// a frame-filling command graph (several 100k nodes, several 100 MB of garbage) legitimately costs
+		// 5-10 s of CPU (GC workers included) although decoding is linear: allow 6x the stall budget for
+		// this one case. A quadratic decoder needs minutes here and is still reported.
+		fmt.Fprintln(c.out, "SLOW")
+	}
 	c.out.Flush()
 	c.res.Evals++
 	c.res.Nontriv++
@@ -403,10 +409,12 @@ func (c *child) runBig(bc bigCase, payload []byte) {
 		c.res.Classes["frame-limit-payload/outcome:error"]++
 	}
 	// proportionality for large payloads: a decoded command node (builder, node, its maps) costs ~1.2 KB for ~7 wire
-	// bytes; 256 bytes per payload byte is the linear allowance, a length-prefixed pre-allocation exceeds it at once
-	bigBudget := uint64(256*len(payload) + fixedBudget)
+	// bytes; 512 bytes per payload byte is the linear allowance, a length-prefixed pre-allocation exceeds it at once
+	// (measured on HEAD: star 106-160 x len, child chain 170-260 x len, growing slowly with the map sizes; 512 keeps
+	// a factor 2 of margin for what is a linear cost)
+	bigBudget := uint64(512*len(payload) + fixedBudget)
 	if d > bigBudget {
-		c.violationZ(tn+"/alloc-blowup", fmt.Sprintf("%s: decoding the %d-byte payload %s allocated %d bytes (budget 256*len+4MiB = %d)", c.cell, len(payload), bc.tag(), d, bigBudget), []byte(bc.tag()))
+		c.violationZ(tn+"/alloc-blowup", fmt.Sprintf("%s: decoding the %d-byte payload %s allocated %d bytes (budget 512*len+4MiB = %d)", c.cell, len(payload), bc.tag(), d, bigBudget), []byte(bc.tag()))
 	}
 	c.res.Classes["frame-limit-payload:"+strings.SplitN(bc.kind, ":", 2)[0]]++
 }
@@ -1011,6 +1019,7 @@ func spawn(env []string, stall time.Duration, hard time.Time) *childRun {
 	progressed := true
 	cpuMark := procCPU(pid)
 	lastProgress := time.Now()
+	baseStall := stall
 loop:
 	for {
 		select {
@@ -1019,7 +1028,10 @@ loop:
 				break loop
 			}
 			progressed = true
+			stall = baseStall
 			switch {
+			case ln == "SLOW":
+				stall = 6 * baseStall // announced by the child for a frame-filling command graph
 			case strings.HasPrefix(ln, "CELL "):
 				cr.lastCell, _ = strconv.Atoi(ln[5:])
 				cr.lastCase = 0
